@@ -1,12 +1,13 @@
 #!/bin/bash
-# usage: keep_seed.sh <PROP> <name> <needs...>   (reads /tmp/mut/<PROP>-out, /tmp/scr/confirm.log, /tmp/scr/detect_<PROP>_<name>.txt)
+# usage: [SRCID=C07b] keep_seed.sh <PROP> <name> <needs...>   (reads /tmp/mut/<SRCID or PROP>-out, /tmp/scr/confirm.log, /tmp/scr/detect_<PROP>_<name>.txt)
 PROP=$1; NAME=$2; shift 2
-SRC=/tmp/mut/$PROP-out; DST=/verif/seeded/$PROP-$NAME
+SRCID=${SRCID:-$PROP}
+SRC=/tmp/mut/$SRCID-out; DST=/verif/seeded/$PROP-$NAME
 mkdir -p $DST
 cp $SRC/$NAME.diff $DST/patch.diff
 cp $SRC/${NAME}_demo.diff $DST/demo.diff
 cp $SRC/$NAME.md $DST/description.md
-CONF=$(grep "^$PROP/$NAME:" /tmp/scr/confirm.log | tail -1)
+CONF=$(grep "^$SRCID/$NAME:" /tmp/scr/confirm.log | tail -1)
 DET=$(cat /tmp/scr/detect_${PROP}_${NAME}.txt 2>/dev/null)
 python3 - "$PROP" "$NAME" "$CONF" "$DET" "$*" <<'PY'
 import json,sys
